@@ -504,7 +504,7 @@ IO_DESC = ('catalogue: array<float3>, array<double1>, constant (2), identity, st
            'over a token-emitting probe backend')
 INFO['C06'] = {
     'bounds': IO_DESC + '; every configuration value and stored scalar a symbolic bit pattern (NaN payloads, signed zeros, subnormals, '
-              'infinities); array length 0..2 quick / 0..3 thorough, plus long payloads of exactly 86-90 elements (quick) / up to 300 (thorough): load(dump(f)) bit-identical at every layer and index, reader consumes '
+              'infinities); array length 0..2 quick / 0..3 thorough, geometry-consistent states (extents 1..3 with the storage the library allocates), plus long payloads of exactly 86-90 elements (quick) / up to 300 (thorough): load(dump(f)) bit-identical at every layer and index, reader consumes '
               'exactly the written bytes, dump(load(dump(f))) == dump(f) byte for byte',
     'outside': 'arrays longer than the bound; stacks outside the catalogue (covered compositionally by the per-layer probe stacks)',
     'cuts': 'stream model (engine/models.py: istream::read / ostream::write on engine-owned streams); error-message formatting cut',
@@ -538,6 +538,11 @@ def units_C06(tier, seed):
         fl = ('rel', 'dbg') if k in (3, 4, 20, 8) or th else ('rel',)
         U += unit(f'c06_roundtrip_{k}', 'c06_io.cpp', f'roundtrip_h<{k},{b}>()', sites=[1, 2, 3, 4, 5, 6], flavours=fl,
                   diff=(k in (0, 3, 4, 5, 6, 21)), weight=10 if k < 20 else 1)
+    # geometry-consistent states (extents 1..3 and the storage the library itself allocates for them)
+    for k in (3, 5, 7, 4, 6, 10):
+        g = 3 if (k in (5, 7) or th) else 2
+        U += unit(f'c06_roundtrip_geo_{k}', 'c06_io.cpp', f'roundtrip_geo_h<{k},{g}>()', sites=[1, 2, 3, 4, 5, 6], weight=60, timeout=1800,
+                  cfg={'sym_cells_cap': 4096})
     return U + long_payload_units(tier, 'C06')
 
 
